@@ -63,6 +63,9 @@ OBJS = {'ints': [1, 2, 3], 'strs': ['a', 'b'], 'mixed': [1, 'a', 2.5], 'floats':
         'dict': {'one': 1, 'two': 'b'}, 'samename': [1, '1', 2], 'dict_open': {'one': 1, 'two': 2}, 'dict_open_newtype': {'one': 1, 'two': 2}}
 
 
+NO_DEFAULT = object()
+
+
 def build(param, cfg):
     """-> (Parameter factory(default), list of valid values, list of out-of-bounds numeric probes)"""
     t = cfg['t']
@@ -143,10 +146,12 @@ def build(param, cfg):
     if cfg['allow_None']:
         vals = vals + [None]
 
-    def factory(default):
+    def factory(default=NO_DEFAULT):
         k = dict(kw)
         if 'objects' in k:
             k['objects'] = list(k['objects']) if isinstance(k['objects'], list) else dict(k['objects'])
+        if default is NO_DEFAULT:
+            return pt(**k)           # declared without a default: the state is whatever the type starts with
         return pt(default=default, **k)
     return factory, vals, probes
 
@@ -223,6 +228,21 @@ class C16(Harness):
                 except jsonschema.ValidationError as e:
                     vs.append(V('state-fails-schema', '%s(%s): state p=%r serialized as %s does not validate against %r: %s' % (
                         t, key['cfg'], v, text, ps, e.message), level=level, value=repr(v)[:40], **key))
+            # the state of a Parameter declared without a default (selectors start with None when nothing else is possible) is a valid state too
+            if t in ('Selector', 'ListSelector') and level == 'class':
+                n += 1
+                try:
+                    X = type('X', (param.Parameterized,), {'p': factory()})
+                    for target in (X, X()):
+                        ps = target.param.schema()['p']
+                        data = json.loads(target.param.serialize_parameters())
+                        if not jsonschema.Draft7Validator(ps).is_valid(data['p']):
+                            vs.append(V('state-fails-schema', '%s(%s) declared without a default: the untouched %s holds %r, which its own schema %r rejects' % (
+                                t, key['cfg'], 'class' if target is X else 'instance', data['p'], ps), level='no-default', value=repr(data['p'])[:40], **key))
+                        else:
+                            hits['validated'] += 1
+                except Exception as e:
+                    vs.append(V('schema-or-serialize-raises', '%s(%s) declared without a default: %r' % (t, key['cfg'], e), level='no-default', exc=type(e).__name__, **key))
             # a per-instance Parameter reconfigured after creation: the instance's schema must describe the instance's constraints
             if t in ('Integer', 'Number') and level == 'instance' and first:
                 X = type('X', (param.Parameterized,), {'p': factory(dflt)})
